@@ -228,6 +228,105 @@ pub fn has_verbatim_line_spanning(text: &str, toks: &[Tok], cfg: &Cfg) -> bool {
     false
 }
 
+/// The lines of a run that have no wrapping solution: a site string for the violation details (which comment is the
+/// cause, named by its neighbours) and the set of tokens of those lines (with their child lines).
+fn unsolved_info(ctx: &mut Ctx, text: &str, cfg: &Cfg, run: &Run, tin: &[Tok]) -> (String, std::collections::HashSet<usize>) {
+    let mut all_toks: std::collections::HashSet<usize> = std::collections::HashSet::new();
+    let site: String = match final_stage(&run.events) {
+        Some(fin) if has_step(&run.events, "wrap_unsolved") => {
+            // why has the line no solution? (classified so that a known finding can name the exact situation)
+            let mut reasons: Vec<&str> = vec![];
+            let mut culprits: Vec<String> = vec![];
+            for a in step_args(&run.events, "wrap_unsolved") {
+                let li = a[0] as usize;
+                let mut toks: Vec<usize> = vec![];
+                let _ = &mut all_toks;
+                for (k, l) in fin.lines.iter().enumerate() {
+                    let mut anc = Some(k);
+                    let mut hit = false;
+                    let mut guard = 0;
+                    while let Some(x) = anc {
+                        if x == li { hit = true; break; }
+                        anc = fin.lines[x].parent.map(|p| p.0);
+                        guard += 1;
+                        if guard > 1000 { break; }
+                    }
+                    if hit { toks.extend(l.tokens.iter().copied()); }
+                }
+                all_toks.extend(toks.iter().copied());
+                let caret_comment = toks.iter().any(|&t| fin.kinds[t].starts_with("Op(Caret") && fin.kinds.get(t + 1).is_some_and(|k| k.starts_with("Comment(")));
+                let any_comment = toks.iter().any(|&t| fin.kinds[t].starts_with("Comment("));
+                reasons.push(if caret_comment { "comment directly after a pointer caret" } else if any_comment { "a comment placement the wrapper cannot satisfy" } else { "unclassified" });
+                // which comment is it? the one whose removal gives the line a solution; named by its neighbours
+                if any_comment && tin.len() == fin.kinds.len() {
+                    toks.sort_unstable();
+                    toks.dedup();
+                    let abstract_tok = |t: &Tok| -> String {
+                        if t.kind == "Identifier" || t.kind.starts_with("IdentifierOrKeyword") { "id".into() }
+                        else if t.kind.starts_with("TextLiteral") || t.kind.starts_with("NumberLiteral") { "lit".into() }
+                        else if t.kind == "Eof" { "eof".into() }
+                        else { t.text(text).to_ascii_lowercase() }
+                    };
+                    let mut found = false;
+                    for &t in toks.iter().filter(|&&t| fin.kinds[t].starts_with("Comment(")).take(12) {
+                        let (cs, ce) = (tin[t].content_start(), tin[t].end());
+                        let mut without = String::with_capacity(text.len());
+                        without.push_str(&text[..cs]);
+                        without.push(' ');
+                        without.push_str(&text[ce..]);
+                        let r2 = ctx.run(&without, cfg, &[], true);
+                        let still = step_args(&r2.events, "wrap_unsolved").len();
+                        if r2.out.is_ok() && still < step_args(&run.events, "wrap_unsolved").len() {
+                            found = true;
+                            let prev = (0..t).rev().map(|k| &tin[k]).find(|x| !x.is_comment() && !x.is_directive()).map(|x| abstract_tok(x)).unwrap_or("bof".into());
+                            let next = ((t + 1)..tin.len()).map(|k| &tin[k]).find(|x| !x.is_comment() && !x.is_directive()).map(|x| abstract_tok(x)).unwrap_or("eof".into());
+                            let own_line = text[..cs].rfind('\n').map(|p| text[p..cs].trim().is_empty()).unwrap_or(text[..cs].trim().is_empty());
+                            let adjacent_comment = (t > 0 && tin[t - 1].is_comment()) || tin.get(t + 1).is_some_and(|x| x.is_comment());
+                            let kind = if fin.kinds[t].contains("Line)") { "line" } else if fin.kinds[t].contains("Multiline") { "multi" } else { "block" };
+                            culprits.push(format!("{prev} <{kind}{}{}> {next}", if own_line { ",own-line" } else { "" }, if adjacent_comment { ",next-to-comment" } else { "" }));
+                        }
+                    }
+                    if !found {
+                        // no single comment: all comments of the line together?
+                        let mut without = String::with_capacity(text.len());
+                        let mut pos = 0usize;
+                        let mut sigs = vec![];
+                        for &t in toks.iter().filter(|&&t| fin.kinds[t].starts_with("Comment(")) {
+                            let (cs, ce) = (tin[t].content_start(), tin[t].end());
+                            if cs < pos {
+                                continue;
+                            }
+                            without.push_str(&text[pos..cs]);
+                            without.push(' ');
+                            pos = ce;
+                            let prev = (0..t).rev().map(|k| &tin[k]).find(|x| !x.is_comment() && !x.is_directive()).map(|x| abstract_tok(x)).unwrap_or("bof".into());
+                            let next = ((t + 1)..tin.len()).map(|k| &tin[k]).find(|x| !x.is_comment() && !x.is_directive()).map(|x| abstract_tok(x)).unwrap_or("eof".into());
+                            let own_line = text[..cs].rfind('\n').map(|p| text[p..cs].trim().is_empty()).unwrap_or(text[..cs].trim().is_empty());
+                            let adjacent_comment = (t > 0 && tin[t - 1].is_comment()) || tin.get(t + 1).is_some_and(|x| x.is_comment());
+                            let kind = if fin.kinds[t].contains("Line)") { "line" } else if fin.kinds[t].contains("Multiline") { "multi" } else { "block" };
+                            sigs.push(format!("{prev} <{kind}{}{}> {next}", if own_line { ",own-line" } else { "" }, if adjacent_comment { ",next-to-comment" } else { "" }));
+                        }
+                        without.push_str(&text[pos..]);
+                        let r2 = ctx.run(&without, cfg, &[], true);
+                        if r2.out.is_ok() && step_args(&r2.events, "wrap_unsolved").len() < step_args(&run.events, "wrap_unsolved").len() {
+                            culprits.extend(sigs);
+                        } else {
+                            culprits.push("not caused by the comments of the line".into());
+                        }
+                    }
+                }
+            }
+            reasons.sort();
+            reasons.dedup();
+            culprits.sort();
+            culprits.dedup();
+            format!(" [site: the program contains a line without a wrapping solution: {}]{}", reasons.join(", "), culprits.iter().map(|c| format!(" [unsolved-culprit: {c}]")).collect::<String>())
+        }
+        _ => String::new(),
+    };
+    (site, all_toks)
+}
+
 pub fn check_case(ctx: &mut Ctx, case: &Case, cfg: &Cfg, props: &[String], want_session: bool) -> CaseResult {
     let mut res = CaseResult { viols: vec![], session: Session::default(), nontrivial: HashMap::new(), skipped_precondition: 0 };
     let text = &case.text;
@@ -468,35 +567,7 @@ pub fn check_case(ctx: &mut Ctx, case: &Case, cfg: &Cfg, props: &[String], want_
             }
         }
     }
-    let unsolved_site: String = match final_stage(&base.events) {
-        Some(fin) if has_step(&base.events, "wrap_unsolved") => {
-            // why has the line no solution? (classified so that a known finding can name the exact situation)
-            let mut reasons: Vec<&str> = vec![];
-            for a in step_args(&base.events, "wrap_unsolved") {
-                let li = a[0] as usize;
-                let mut toks: Vec<usize> = vec![];
-                for (k, l) in fin.lines.iter().enumerate() {
-                    let mut anc = Some(k);
-                    let mut hit = false;
-                    let mut guard = 0;
-                    while let Some(x) = anc {
-                        if x == li { hit = true; break; }
-                        anc = fin.lines[x].parent.map(|p| p.0);
-                        guard += 1;
-                        if guard > 1000 { break; }
-                    }
-                    if hit { toks.extend(l.tokens.iter().copied()); }
-                }
-                let caret_comment = toks.iter().any(|&t| fin.kinds[t].starts_with("Op(Caret") && fin.kinds.get(t + 1).is_some_and(|k| k.starts_with("Comment(")));
-                let any_comment = toks.iter().any(|&t| fin.kinds[t].starts_with("Comment("));
-                reasons.push(if caret_comment { "comment directly after a pointer caret" } else if any_comment { "a comment placement the wrapper cannot satisfy" } else { "unclassified" });
-            }
-            reasons.sort();
-            reasons.dedup();
-            format!(" [site: the program contains a line without a wrapping solution: {}]", reasons.join(", "))
-        }
-        _ => String::new(),
-    };
+    let (unsolved_site, unsolved_toks) = unsolved_info(ctx, text, cfg, &base, &tin);
     let unsolved_site = unsolved_site.as_str();
     if !unsolved_site.is_empty() && wf {
         *res.nontrivial.entry("unsolved_in_wellformed").or_insert(0) += 1;
@@ -512,7 +583,14 @@ pub fn check_case(ctx: &mut Ctx, case: &Case, cfg: &Cfg, props: &[String], want_
                     }
                     res.skipped_precondition += skipped;
                     for mut v in vs {
-                        v.detail.push_str(unsolved_site);
+                        // a mark is excused by an unsolved line only when the marked token is in that line (or its child lines)
+                        let in_unsolved = v.detail.find("(plain token ").and_then(|p| v.detail[p + 13..].split(')').next().and_then(|n| n.parse::<usize>().ok()))
+                            .and_then(|ord| plain.get(ord)).and_then(|t| tout.iter().position(|x| x.start == t.start))
+                            .map(|k| tin.len() != tout.len() || unsolved_toks.contains(&k) || (k > 0 && unsolved_toks.contains(&(k - 1))))
+                            .unwrap_or(true);
+                        if in_unsolved {
+                            v.detail.push_str(unsolved_site);
+                        }
                         res.viols.push(v);
                     }
                 } else {
@@ -530,7 +608,68 @@ pub fn check_case(ctx: &mut Ctx, case: &Case, cfg: &Cfg, props: &[String], want_
                 if let Ok(o2) = &r2.out {
                     if *o2 != out {
                         let lit_site = if only_space_after_literal_differs(&out, o2) { " [site: zero or one space after a literal / unknown character is taken from the input]" } else { "" };
-                        res.viols.push(Viol { prop: "C06", clause: "layout_independent", detail: format!("{}{unsolved_site}{lit_site}", first_diff(&out, o2)) });
+                        // the difference is excused only when every token whose text or leading blanks differ belongs to a line
+                        // without a wrapping solution (F7) or to a logical line that is partly inside a verbatim region (F20),
+                        // in either run
+                        let mut site = String::new();
+                        {
+                            let r2r = ctx.run(alt, cfg, &[], true);
+                            let tin2 = lex(alt).unwrap_or_default();
+                            let (site2, toks2) = unsolved_info(ctx, alt, cfg, &r2r, &tin2);
+                            let partial = |run: &Run, txt: &str, tk: &[Tok]| -> std::collections::HashSet<usize> {
+                                let mut res = std::collections::HashSet::new();
+                                if let Some(fin) = final_stage(&run.events) {
+                                    let vm = crate::toggle::verbatim_marks(txt, tk);
+                                    if vm.len() == fin.kinds.len() {
+                                        let mixed: Vec<bool> = fin.lines.iter().map(|l| l.tokens.iter().any(|&t| vm[t]) && l.tokens.iter().any(|&t| !vm[t])).collect();
+                                        let touched: Vec<bool> = fin.lines.iter().map(|l| l.tokens.iter().any(|&t| vm[t]) || format!("{:?}", l.line_type).contains("Voided")).collect();
+                                        for (k, l) in fin.lines.iter().enumerate() {
+                                            // the line itself, or a child line of a line that has verbatim tokens
+                                            let mut anc = l.parent.map(|p| p.0);
+                                            let mut under = mixed[k];
+                                            let mut guard = 0;
+                                            while let Some(x) = anc {
+                                                if touched[x] { under = true; break; }
+                                                anc = fin.lines[x].parent.map(|p| p.0);
+                                                guard += 1;
+                                                if guard > 1000 { break; }
+                                            }
+                                            if under {
+                                                res.extend(l.tokens.iter().copied());
+                                            }
+                                        }
+                                    }
+                                }
+                                res
+                            };
+                            let (p1, p2) = (partial(&base, text, &tin), partial(&r2r, alt, &tin2));
+                            let (ta, tb) = (lex(&out).unwrap_or_default(), lex(o2).unwrap_or_default());
+                            let mut used_unsolved = false;
+                            let mut used_partial = false;
+                            let excused = ta.len() == tb.len() && ta.len() == tin.len() && (0..ta.len()).all(|k| {
+                                if ta[k].text(&out) == tb[k].text(o2) && ta[k].ws(&out) == tb[k].ws(o2) {
+                                    return true;
+                                }
+                                if unsolved_toks.contains(&k) || toks2.contains(&k) || (k > 0 && (unsolved_toks.contains(&(k - 1)) || toks2.contains(&(k - 1)))) {
+                                    used_unsolved = true;
+                                    return true;
+                                }
+                                if p1.contains(&k) || p2.contains(&k) {
+                                    used_partial = true;
+                                    return true;
+                                }
+                                false
+                            });
+                            if excused {
+                                if used_unsolved {
+                                    site = format!("{unsolved_site}{}", if site2 != unsolved_site { site2.as_str() } else { "" });
+                                }
+                                if used_partial {
+                                    site.push_str(" [site: logical line partly inside a verbatim region]");
+                                }
+                            }
+                        }
+                        res.viols.push(Viol { prop: "C06", clause: "layout_independent", detail: format!("{}{site}{lit_site}", first_diff(&out, o2)) });
                     }
                 }
             }
